@@ -489,9 +489,9 @@ def gen_gm(rng):
         elif k < 0.7:
             m(1, "PRIVMSG #c :mine")
         elif k < 0.8:
-            nickb = "bob%d" % rng.randint(1, 9); m(2, "NICK " + nickb); avail += 1
+            nickb = "bob%d" % rng.randint(1, 9); m(2, "NICK " + nickb)      # no output if the nick is unchanged:
         elif k < 0.9:
-            m(3, "TOPIC #c :%s" % rng.choice(["t1", "t2"])); avail += 1
+            m(3, "TOPIC #c :%s" % rng.choice(["t1", "t2"]))                  # ... or the topic; not counted in avail
         else:
             m(1, "WHO #c"); avail += 2
     for _ in range(rng.randint(4, 14)):
@@ -899,14 +899,14 @@ def gm_known_c17(ck):
     ck.notes["c17_gm_probe"] = {"scenarios": len(res), "ended_link_served_once": hits}
 
 
-def run_gm(specs, tag="gm"):
+def run_gm(specs, tag="gm", scale=None):
     wd = vlib.workdir()
     inp, outp = os.path.join(wd, tag + ".in"), os.path.join(wd, tag + ".out")
     open(inp, "w").write("\n".join(gm_line(s) for s in specs) + "\n")
     if os.path.exists(outp):
         os.remove(outp)
     rc, out = vlib.go_test(PKG, {vlib.REPO + "/internal/api/zz_verif_getmsg_test.go": vlib.HGO + "/api/zz_verif_getmsg_test.go"},
-                           "^TestVerifGetMsg$", {"VERIF_IN": inp, "VERIF_OUT": outp}, timeout=900)
+                           "^TestVerifGetMsg$", dict({"VERIF_IN": inp, "VERIF_OUT": outp}, **({"VERIF_WAIT_SCALE": str(scale)} if scale else {})), timeout=2400)
     if rc != 0 or not os.path.exists(outp):
         return None, out
     res = []
@@ -918,18 +918,82 @@ def run_gm(specs, tag="gm"):
     return res, out
 
 
+# ------------------------------------------------------------------ timing-only discrepancies
+def timing_only(sc, gline):
+    """the discrepancy consists only of the driver's wall-clock bound firing: a !timeout marker (or
+    the signature resume-handler-stuck) and, apart from it, what was received is a prefix of what is owed"""
+    why = monitor(sc, gline)
+    if not why or "!timeout" not in (gline or ""):
+        return False
+    if why[0] == "resume-handler-stuck":
+        return True
+    exp = [(i, r, t) for (_, i, r, t) in expected_stream(sc)]
+    got = []
+    for t in gline.split(" ")[1:-1]:
+        got += _received(t)
+    return got == exp[:len(got)]
+
+
+def rerun_one(sc, scale):
+    """that single scenario, alone, with enlarged bounds; returns its new result line"""
+    if "gm" in sc:
+        rr, _ = run_gm([sc["gm"]], "rerun", scale)
+        rr = [x for x in (rr or []) if x[0].get("gm_client", 1) == sc.get("gm_client", 1)]
+        return (rr[0][0], rr[0][1]) if rr else (sc, None)
+    g, _ = run_go([case_line(sc)], "rerun", scale)
+    return sc, (g[0] if g else None)
+
+
+def settle_timing(cases, glines, monfail, info):
+    """a timing-only discrepancy becomes a violation only if it reproduces every time when the
+    scenario is re-run in isolation, serially, with doubled and quadrupled bounds (a handler that is
+    really stuck reproduces, a scheduling hiccup of a loaded machine does not).  At most a few
+    scenarios per signature are verified that way; the others of that signature follow their verdict."""
+    keep, verified = [], {}
+    for i, why in monfail:
+        if i < 0 or not timing_only(cases[i], glines[i]):
+            keep.append((i, why)); continue
+        info["timing_only_discrepancies"] += 1
+        v = verified.setdefault(why[0], {"real": 0, "hiccup": 0})
+        if v["real"] >= 2:
+            keep.append((i, why)); continue               # same signature reproduced twice already
+        if v["hiccup"] >= 6 and v["real"] == 0:
+            info["dropped_without_rerun"] += 1; continue   # this signature never reproduced so far
+        real = True
+        for scale in (2, 2, 4):
+            info["isolated_reruns"] += 1
+            sc2, g2 = rerun_one(cases[i], scale)
+            w2 = monitor(sc2, g2) if g2 is not None else ("driver-output-unparsable", "")
+            if not w2:
+                real = False
+                glines[i] = g2                              # the undisturbed result is the scenario's result
+                break
+            if not timing_only(sc2, g2):
+                why = w2                                   # a different, content-level failure showed up
+                cases[i], glines[i] = sc2, g2
+                break
+        if real:
+            v["real"] += 1; keep.append((i, why))
+        else:
+            v["hiccup"] += 1; info["not_reproduced"] += 1
+    return keep
+
+
 # ------------------------------------------------------------------ running both sides
 def overlay():
     return {vlib.REPO + "/internal/api/zz_verif_res_test.go": vlib.HGO + "/api/zz_verif_res_test.go"}
 
 
-def run_go(lines, tag="res"):
+def run_go(lines, tag="res", scale=None):
     wd = vlib.workdir()
     inp, outp = os.path.join(wd, tag + ".in"), os.path.join(wd, tag + ".out")
     open(inp, "w").write("\n".join(lines) + "\n")
     if os.path.exists(outp):
         os.remove(outp)
-    rc, out = vlib.go_test(PKG, overlay(), "^TestVerifRes$", {"VERIF_IN": inp, "VERIF_OUT": outp}, timeout=900)
+    env = {"VERIF_IN": inp, "VERIF_OUT": outp}
+    if scale:
+        env["VERIF_WAIT_SCALE"] = str(scale)
+    rc, out = vlib.go_test(PKG, overlay(), "^TestVerifRes$", env, timeout=2400)
     if rc != 0 or not os.path.exists(outp):
         return None, out
     return open(outp).read().split("\n")[:-1], out
@@ -1184,6 +1248,10 @@ def run(ck, replay):
     ck.cov["samples"] = [{"case": lines[i][:1500], "impl": glines[i][:1500], "model": mlines[i][:1500]} for i in
                          ([0] if ncorpus else []) + [ncorpus, len(cases) - 1] if i < len(lines)][:3]
 
+    timing = {"timing_only_discrepancies": 0, "isolated_reruns": 0, "not_reproduced": 0, "dropped_without_rerun": 0}
+    monfail = settle_timing(cases, glines, monfail, timing)
+    ck.notes["timing_reruns"] = timing
+    mism = [i for i in range(len(cases)) if i >= len(mlines) or glines[i] != mlines[i]]
     # `ended-link-served-once` is an open finding of C17 (bin/check C17 reports it through gm_known_c17):
     # the link's own stream up to its end is complete, so it is counted here, not reported
     c17 = [x for x in monfail if x[1][0] == LINK_ONCE]
